@@ -62,9 +62,10 @@ func newSW(s *core.Sim, park bool) *SW {
 }
 
 // lowerParallelThreshold lets small ranges take DeleteRange's parallel path.
-// Only fault-free configurations use it: there the parallel path must behave
-// exactly like the sequential one. (Under part-way failures the parallel path
-// deletes an arbitrary subset by design; that regime is not explored.)
+// Fault-free configurations use it (there the parallel path must behave exactly like
+// the sequential one) and C14's handler failures (one half in two, so the text says
+// "one run in two"). Under deadlines, write errors and crashes the parallel path
+// deletes an arbitrary subset by design; that regime is not explored.
 func (w *SW) lowerParallelThreshold() {
 	w.ParThreshold = core.Pick(w.S.Tape, "parallel-threshold", []uint64{10000, 10000, 3, 6})
 	store.SimSetDeleteParallelThreshold(w.ParThreshold)
